@@ -208,7 +208,7 @@ def ack_flush_family():
     big = {"k": "b", "id": 4, "len": 5000, "n": 0}
     one = {"k": "b", "id": 6, "len": 900, "n": 0}
     nv = {"k": "b", "id": 7, "len": 1200, "n": 0}
-    points = ["rd_pinned", "rd_sector", "ret_requeue", "ret_device", "ret_release", "ff_send", "ff_retire"]
+    points = ["rd_pinned", "ret_requeue"]
     for tag, val in (("multi", big), ("single", one)):
         cfg = {"pers": True, "ttl": True, "lim": -1, "cache": False, "blocks": 24}
         init = [{"op": "insert", "k": 1, "v": val, "auto": False, "tsv": NOW - 10 * E9}, {"op": "flush"}]
